@@ -219,6 +219,10 @@ func runWorker(out string, n int, seed int64, from int) int {
 			p.Mode, p.Cap, p.Pace, p.Threads = "sched", schedCap, []string{"fast", "slow", "stall", "late"}[rnd.Intn(4)], 2
 			p.Procs = []int{1, 2, 4, 16}[rnd.Intn(4)]
 			dirty = runSched(p, i, rnd, emit)
+		} else if onlyMode == "longadd" && i%2 == 1 {
+			p.Mode, p.Cap, p.Pace, p.Threads = "rdclose", 0, "gated", 2
+			p.Procs = []int{2, 4, 16}[rnd.Intn(3)]
+			dirty = runRdClose(p, i, rnd, emit)
 		} else if onlyMode == "longadd" || rnd.Intn(8) == 0 {
 			p.Mode, p.Cap, p.Pace, p.Threads = "longadd", 16, "fast", 3
 			p.Procs = []int{2, 4, 16}[rnd.Intn(3)]
@@ -507,7 +511,6 @@ func runProgram(p program, idx int, rnd *rand.Rand, emit func(interface{})) (dir
 	return dirty
 }
 
-
 // runDuel: rounds of one Remove(p1) against one to three Add(p1) issued at the same instant on a watched
 // path while the reader goroutine is parked on an event nobody receives (so that whatever the calls leave
 // behind in the kernel queue is still unprocessed when they return), each round bracketed by sequential
@@ -692,7 +695,6 @@ func runDuel(p program, idx int, rnd *rand.Rand, emit func(interface{})) (dirty 
 	emit(J{"k": "endprog", "idx": idx, "hang": hang, "crashed": false})
 	return dirty
 }
-
 
 // runSched: a program inside the universe of the scheduling model (spec/InotifySched.tla): ONE watched file, two API
 // goroutines (Add / Remove / WatchList / Close on it), one file system goroutine (chmod, then perhaps one rename-away
@@ -946,7 +948,6 @@ func runSched(p program, idx int, rnd *rand.Rand, emit func(interface{})) (dirty
 	return dirty
 }
 
-
 // runLongAdd: Close while an Add is at work for a long time (a recursive Add over a tree of directories holds the
 // mutex for the whole walk).  Close must wait for it or make it fail with ErrClosed - never let it go on using the
 // descriptor, whose number the next Watcher of the process may get: a fresh Watcher created right after Close must
@@ -1088,6 +1089,90 @@ func runLongAdd(p program, idx int, rnd *rand.Rand, emit func(interface{})) (dir
 	}
 	mu.Unlock()
 	emit(J{"k": "endprog", "idx": idx, "hang": hang, "crashed": false})
+	return dirty
+}
+
+// runRdClose: Close meets a reader that still has a record to handle.  Two watched files; one is changed, the other renamed,
+// nobody receiving: the reader has read both records and is parked sending the first event.  A long-running recursive Add
+// takes the mutex, Close queues up behind it, then the consumer starts: the reader moves on to the IN_MOVE_SELF record
+// (whose handling calls inotify_rm_watch) and queues up behind Close.  Whatever it does then it must not touch the
+// descriptor Close has closed: any value on Errors is reported.
+func runRdClose(p program, idx int, rnd *rand.Rand, emit func(interface{})) (dirty bool) {
+	runtime.GOMAXPROCS(p.Procs)
+	root, _ := os.MkdirTemp("", "vstress-")
+	root, _ = filepath.EvalSymlinks(root)
+	defer os.RemoveAll(root)
+	os.Chdir(root)
+	defer os.Chdir("/")
+	for i := 0; i < 200; i++ {
+		os.MkdirAll(fmt.Sprintf("p1/d%03d/s", i), 0o755)
+	}
+	os.Mkdir("q", 0o755)
+	os.WriteFile("q/f", nil, 0o644)
+	os.WriteFile("q/g", nil, 0o644)
+	atomic.StoreInt64(&stamp, 0)
+	emit(J{"k": "prog", "idx": idx, "id": p.ID, "mode": p.Mode, "threads": p.Threads, "cap": p.Cap, "pace": p.Pace, "procs": p.Procs})
+	fsnotify.VerifSetRecurse(true)
+	defer fsnotify.VerifSetRecurse(false)
+	w, err := fsnotify.NewWatcher()
+	if err != nil {
+		emit(J{"k": "infra", "what": "NewWatcher: " + err.Error()})
+		emit(J{"k": "endprog", "idx": idx, "hang": []string{}, "crashed": false})
+		return false
+	}
+	hang := []string{}
+	w.Add("q/f")
+	w.Add("q/g")
+	os.Chmod("q/g", 0o600)
+	os.Rename("q/f", "q/f2")
+	time.Sleep(2 * time.Millisecond)
+	var api sync.WaitGroup
+	api.Add(2)
+	go func() { defer api.Done(); w.Add("p1/...") }()
+	for i := 0; i < 20000; i++ { // until the Add holds the mutex
+		if _, _, locked := fsnotify.VerifInotifyTables(w); locked {
+			break
+		}
+		runtime.Gosched()
+	}
+	go func() { defer api.Done(); w.Close() }()
+	time.Sleep(time.Duration(50+rnd.Intn(200)) * time.Microsecond)
+	var emu sync.Mutex
+	var bg sync.WaitGroup
+	bg.Add(1)
+	go func() { // consumer
+		defer bg.Done()
+		evs, errs := w.Events, w.Errors
+		for evs != nil || errs != nil {
+			select {
+			case _, ok := <-evs:
+				if !ok {
+					evs = nil
+				}
+			case e, ok := <-errs:
+				if !ok {
+					errs = nil
+				} else {
+					emu.Lock()
+					hang = append(hang, "error_on_Errors:"+classify(e))
+					emu.Unlock()
+				}
+			}
+		}
+	}()
+	done := make(chan struct{})
+	go func() { api.Wait(); bg.Wait(); close(done) }()
+	select {
+	case <-done:
+	case <-time.After(15 * time.Second):
+		emu.Lock()
+		hang = append(hang, "close_or_add")
+		emu.Unlock()
+		dirty = true
+	}
+	emu.Lock()
+	emit(J{"k": "endprog", "idx": idx, "hang": append([]string{}, hang...), "crashed": false})
+	emu.Unlock()
 	return dirty
 }
 
